@@ -2,6 +2,20 @@
 """writes MANIFEST.json from the table below (kept in one place so that it stays valid)"""
 import json
 CHECKS = {
+ "C05": dict(
+   text="Partial proof. Proved: the arctan limiter keeps the correction factor in [1 - pi/4, 1 + pi/2) for every non-negative raw correction "
+        "(Mathlib real analysis), so proposals keep the sign of the step and never vanish and a rejection (corr < 0.81) proposes a strictly "
+        "smaller magnitude; on a Lean model of the accept/retry loop of __call__: the attempted steps of one call strictly decrease in "
+        "magnitude for steps of either sign, an error is raised after exactly 1+64 attempts, an accepted call honours the integrator "
+        "contract of the C03 loop theorems, and on the memory-less controller branch acceptance forces the scaled error estimate below one "
+        "(uses tan 0.19 < 0.2, proved). The model is tied to the code by replaying every recorded __call__ of seeded adaptive runs bit for "
+        "bit. NOT proved (numerical analysis): global error <= C x tolerance x amplification; it is measured by tolerance sweeps on "
+        "closed-form problems, both directions, initial steps 1e-4..5, as validation and failing-input search.",
+   note="Trusted: Lean kernel, standard axioms (Mathlib real analysis), harness. The error estimate's relation to the true local error and "
+        "the accumulation of local errors are outside the proof; update_timestep's power-law part is an input of the model (its output is "
+        "recorded and replayed).",
+   technique="Lean 4 proof (Mathlib arctan bounds; induction over the retry loop) + bit-exact replay of recorded controller decisions + tolerance sweeps",
+   design="5 (C05)"),
  "C02": dict(
    text="Proof over an arbitrary Q-module, for EVERY right-hand side f, time, state, step of either sign and any stale content of the stage "
         "storage, about Lean models of compute_step / RungeKuttaIntegrator.step / ExplicitSymplecticIntegrator.step and of the accept/retry "
